@@ -163,6 +163,7 @@ package statedb
 //@ func tableIndex.len
 //@   trusted
 //@   pure
+//@   ensures result == ixLen(recv)
 //@ func tableIndex.commit returns (idx, txn)
 //@   trusted
 //@   modifies H_part_Txn_* H_lpm_Txn_* H_statedb_lpmIndexTxn_* H_statedb_partIndexTxn_*
@@ -1216,3 +1217,249 @@ package statedb
 //@   flag dyncall.newTableIndex=pure
 //@   requires t != nil
 //@   ensures @fresh-unlocked-entry fresh(result) && !result.locked && result.revision == 0 && result.init == nil && unboxptr(result.meta) == t
+
+// ---------------------------------------------------------------------------
+// LPM-backed index, thin layer (C04, C13, C06, C01): every query goes to the index's own trie
+// (or the index transaction's own trie transaction) with the caller's key, and hands back the
+// index's single watch channel.
+//@ func lpmIndex.get returns (obj, watch, ok)
+//@   property C04 C13 C06
+//@   flag nosafety
+//@   atcall (*Trie).Lookup@1 requires @callers-key $1 == ikey
+//@   mustcall (*Trie).Lookup@1 when @always true
+//@   ensures @index-watch watch == l.watch
+//@ func lpmIndex.list returns (it, watch)
+//@   property C04 C13 C06
+//@   flag nosafety
+//@   atcall (*Trie).Lookup@1 requires @callers-key $1 == key
+//@   mustcall (*Trie).Lookup@1 when @always true
+//@   ensures @index-watch watch == l.watch
+//@ func lpmIndex.prefix returns (it, watch)
+//@   property C04 C13 C06
+//@   flag nosafety
+//@   atcall (*Trie).Prefix@1 requires @callers-key $1 == key
+//@   mustcall (*Trie).Prefix@1 when @always true
+//@   ensures @index-watch watch == l.watch
+//@ func lpmIndex.lowerBound returns (it, watch)
+//@   property C04 C13 C06
+//@   flag nosafety
+//@   atcall (*Trie).LowerBound@1 requires @callers-key $1 == key
+//@   mustcall (*Trie).LowerBound@1 when @always true
+//@   ensures @index-watch watch == l.watch
+//@ func lpmIndex.lowerBoundNext returns (next, watch)
+//@   property C04 C13 C06 C07
+//@   flag nosafety
+//@   atcall (*Trie).LowerBound@1 requires @callers-key $1 == key
+//@   mustcall (*Trie).LowerBound@1 when @always true
+//@   ensures @index-watch watch == l.watch
+//@ func lpmIndex.all returns (it, watch)
+//@   property C04 C13 C06
+//@   flag nosafety
+//@   mustcall (*Trie).All@1 when @always true
+//@   ensures @index-watch watch == l.watch
+//@ func lpmIndex.len
+//@   property C04 C13
+//@   pure
+//@   ensures result == l.size
+//@ func lpmIndex.rootWatch
+//@   property C06 C13
+//@   pure
+//@   ensures result == l.watch
+//@ func lpmIndex.txn returns (itxn, created)
+//@   property C01 C02 C13
+//@   flag nosafety
+//@   mustcall (*Txn).Reuse@1 when @recycled-transaction-is-rebased-on-this-trie l.prevTxn != nil
+//@   mustcall (*Trie).Txn@1 when @new-transaction-on-this-trie l.prevTxn == nil
+//@   atcall (*Txn).Reuse@1 requires @rebased-on-this-trie $0 == l.prevTxn && $1.root == l.lpm.root && $1.size == l.lpm.size && $1.prevTxnID == l.lpm.prevTxnID
+//@   ensures @new-transaction-reported created && fresh(unboxptr(itxn)) && ptrto(lpmIndexTxn, unboxptr(itxn)).size == l.size && ptrto(lpmIndexTxn, unboxptr(itxn)).index.watch == l.watch
+//@ func (*lpmIndexTxn).get returns (obj, watch, ok)
+//@   property C04 C13 C06 C03
+//@   flag nosafety
+//@   requires l != nil
+//@   atcall (*Txn).Lookup@1 requires @own-txn-callers-key $0 == l.tx && $1 == key
+//@   mustcall (*Txn).Lookup@1 when @always true
+//@   ensures @index-watch watch == l.index.watch
+//@ func (*lpmIndexTxn).list returns (it, watch)
+//@   property C04 C13 C06
+//@   flag nosafety
+//@   requires l != nil
+//@   atcall (*Txn).Lookup@1 requires @own-txn-callers-key $0 == l.tx && $1 == key
+//@   mustcall (*Txn).Lookup@1 when @always true
+//@   ensures @index-watch watch == l.index.watch
+//@ func (*lpmIndexTxn).prefix returns (it, watch)
+//@   property C04 C13 C06
+//@   flag nosafety
+//@   requires l != nil && l.tx != nil
+//@   atcall (*Txn).Prefix@1 requires @own-txn-callers-key $0 == l.tx && $1 == key
+//@   mustcall (*Txn).Prefix@1 when @always true
+//@   ensures @index-watch watch == l.index.watch
+//@ func (*lpmIndexTxn).lowerBound returns (it, watch)
+//@   property C04 C13 C06
+//@   flag nosafety
+//@   requires l != nil && l.tx != nil
+//@   atcall (*Txn).LowerBound@1 requires @own-txn-callers-key $0 == l.tx && $1 == key
+//@   mustcall (*Txn).LowerBound@1 when @always true
+//@   ensures @index-watch watch == l.index.watch
+//@ func (*lpmIndexTxn).lowerBoundNext returns (next, watch)
+//@   property C04 C13 C06 C07
+//@   flag nosafety
+//@   requires l != nil && l.tx != nil
+//@   atcall (*Txn).LowerBound@1 requires @own-txn-callers-key $0 == l.tx && $1 == key
+//@   mustcall (*Txn).LowerBound@1 when @always true
+//@   ensures @index-watch watch == l.index.watch
+//@ func (*lpmIndexTxn).all returns (it, watch)
+//@   property C04 C13 C06
+//@   flag nosafety
+//@   requires l != nil && l.tx != nil
+//@   atcall (*Txn).All@1 requires @own-txn $0 == l.tx
+//@   mustcall (*Txn).All@1 when @always true
+//@   ensures @index-watch watch == l.index.watch
+//@ func (*lpmIndexTxn).len
+//@   property C04 C13
+//@   pure
+//@   flag nosafety
+//@   ensures result == l.size
+//@ func (*lpmIndexTxn).rootWatch
+//@   property C06 C13
+//@   pure
+//@   flag nosafety
+//@   ensures result == l.index.watch
+//@ func (*lpmIndexTxn).notify
+//@   property C06 C12 C02
+//@   flag nosafety
+//@   requires l != nil
+//@   ensures @closes-the-index-channel-once old(l.index.watch) != nil ==> closed(old(l.index.watch)) && l.index.watch == nil
+//@   ensures @nothing-to-close old(l.index.watch) == nil ==> unchanged(CH_closed)
+//@ func (*lpmIndexTxn).txn returns (itxn, created)
+//@   property C01 C02 C13
+//@   flag nosafety
+//@   ensures @already-a-transaction !created && unboxptr(itxn) == l
+
+// Remaining thin table layer (C03, C04, C09): Insert is InsertWatch; the object counts are the
+// lengths of the revision and graveyard indexes of the snapshot's entry; the write-transaction
+// insert is modify without a merge function; DeleteAll deletes through the transaction,
+// unguarded, and stops at the first error; closing a change iterator closes its tracker.
+//@ func (*genTable).Insert
+//@   property C02 C03 C04 C09
+//@   flag nosafety
+//@   maypanic
+//@   flag assumepre=transaction-table-entries-well-formed
+//@   atcall (*genTable).InsertWatch@1 requires @same-transaction-and-object $0 == t && $1 == txn && $2 == obj
+//@   mustcall (*genTable).InsertWatch@1 when @always true
+//@ func (*tableEntry).numObjects
+//@   property C04 C09
+//@   flag nosafety
+//@   ensures @length-of-the-revision-index result == ixLen(t.indexes[0])
+//@ func (*tableEntry).numDeletedObjects
+//@   property C04 C08
+//@   flag nosafety
+//@   ensures @length-of-the-graveyard-index result == ixLen(t.indexes[1])
+//@ func (*genTable).NumObjects
+//@   property C04 C09 C01
+//@   flag nosafety
+//@   maypanic
+//@   ensures @count-of-the-snapshot-entry result == ixLen(entryOf(txn, t).indexes[0])
+//@ func (*genTable).numDeletedObjects
+//@   property C04 C08
+//@   flag nosafety
+//@   maypanic
+//@   ensures @count-of-the-snapshot-entry result == ixLen(entryOf(txn, t).indexes[1])
+//@ func (*writeTxnState).insert
+//@   property C03 C09 C04
+//@   flag nosafety
+//@   flag assumepre=transaction-table-entries-well-formed
+//@   atcall (*writeTxnState).modify@1 requires @plain-insert-same-guard-and-object $0 == txn && $1 == meta && $2 == guardRevision && $3 == data
+//@   mustcall (*writeTxnState).modify@1 when @always true
+//@ func (*genTable).DeleteAll
+//@   property C03 C04 C08
+//@   flag nosafety
+//@   maypanic
+//@   flag assumepre=transaction-table-entries-well-formed
+//@   atcall (*genTable).All@1 requires @all-objects-of-this-transaction $0 == t && $1 == txn
+//@   mustcall (*genTable).All@1 when @always true
+//@ func (*genTable).DeleteAll$1
+//@   property C03 C04 C08
+//@   flag nosafety
+//@   maypanic
+//@   flag assumepre=transaction-table-entries-well-formed
+//@   atcall (*writeTxnState).delete@1 requires @unguarded-delete-of-the-object-in-hand unboxptr($1) == t && $2 == 0
+//@   mustcall (*writeTxnState).delete@1 when @always true
+//@ func (*changeIterator).Close
+//@   property C07 C08 C10
+//@   flag nosafety
+//@   maypanic
+//@   flag assumepre=transaction-table-entries-well-formed
+//@   requires it != nil
+//@   mustcall close@1 when @tracker-closed it.dt != nil
+//@   ensures @tracker-dropped it.dt == nil
+
+// The untyped table API (C03, C04, C09): the same delegations as the typed one.
+//@ func TableMeta.getIndexer
+//@   trusted
+//@   pure
+//@ func ReadTxn.indexReadTxn returns (ix, err)
+//@   trusted
+//@   pure
+//@   ensures err == nil ==> ix == ixOf(recv, unboxptr(meta), indexPos)
+//@ func AnyTable.Insert returns (old, hadOld, err)
+//@   property C03 C04 C09
+//@   flag nosafety
+//@   maypanic
+//@   flag assumepre=transaction-table-entries-well-formed
+//@   atcall (*writeTxnState).insert@1 requires @unguarded-insert-into-this-table $1 == t.Meta && $2 == 0 && $3 == obj
+//@   mustcall (*writeTxnState).insert@1 when @always true
+//@ func AnyTable.Delete returns (old, hadOld, err)
+//@   property C03 C04 C09 C08
+//@   flag nosafety
+//@   maypanic
+//@   flag assumepre=transaction-table-entries-well-formed
+//@   atcall (*writeTxnState).delete@1 requires @unguarded-delete-from-this-table $1 == t.Meta && $2 == 0 && $3 == obj
+//@   mustcall (*writeTxnState).delete@1 when @always true
+//@ func AnyTable.NumObjects
+//@   property C04 C09 C01
+//@   flag nosafety
+//@   maypanic
+//@   atcall mustIndexReadTxn@1 requires @primary-index-of-the-snapshot $0 == txn && $1 == t.Meta && $2 == 3
+//@ func AnyTable.AllWatch returns (seq, watch)
+//@   property C04 C11 C01
+//@   flag nosafety
+//@   maypanic
+//@   atcall mustIndexReadTxn@1 requires @primary-index-of-the-snapshot $0 == txn && $1 == t.Meta && $2 == 3
+//@   mustcall all@1 when @always true
+//@   ensureslocal @hands-on-the-watch-of-that-query watch == qWatch(indexTxn, 4, 0)
+//@ func AnyTable.AllWatch$1$1
+//@   property C04 C09 C11
+//@   flag nosafety
+//@   maypanic
+//@   atcall yield@1 requires @object-with-its-own-revision $0 == iobj.data && $1 == iobj.revision
+//@   mustcall yield@1 when @always true
+//@ func AnyTable.queryIndex returns (ix, rawKey, err)
+//@   property C04 C18 C01
+//@   flag nosafety
+//@   maypanic
+//@   flag dyncall.fromString=pure
+//@   atcall indexReadTxn@1 requires @index-of-the-named-indexer-in-the-snapshot $0 == txn && $1 == t.Meta && $2 == indexer.pos
+//@ func AnyTable.Get
+//@   property C04 C18 C09
+//@   flag nosafety
+//@   maypanic
+//@   atcall AnyTable.queryIndex@1 requires @same-query $1 == txn && $2 == index && $3 == key
+//@   atcall get@1 requires @asks-the-resolved-index-for-the-resolved-key $0 == itxn && $1 == rawKey
+//@ func AnyTable.Prefix
+//@   property C04 C18
+//@   flag nosafety
+//@   maypanic
+//@   atcall AnyTable.queryIndex@1 requires @same-query $1 == txn && $2 == index && $3 == key
+//@   atcall prefix@1 requires @asks-the-resolved-index-for-the-resolved-key $0 == itxn && $1 == rawKey
+//@ func AnyTable.LowerBound
+//@   property C04 C18
+//@   flag nosafety
+//@   maypanic
+//@   atcall AnyTable.queryIndex@1 requires @same-query $1 == txn && $2 == index && $3 == key
+//@   atcall lowerBound@1 requires @asks-the-resolved-index-for-the-resolved-key $0 == itxn && $1 == rawKey
+//@ func AnyTable.List
+//@   property C04 C18
+//@   flag nosafety
+//@   maypanic
+//@   atcall AnyTable.queryIndex@1 requires @same-query $1 == txn && $2 == index && $3 == key
+//@   atcall list@1 requires @asks-the-resolved-index-for-the-resolved-key $0 == itxn && $1 == rawKey
